@@ -56,6 +56,9 @@ class Loader(Generic[T]):
             state_dict (Dict[str, Any]): The state_dict to load. Should be generated from a call to state_dict().
         """
         self._next_iter_state_dict = state_dict
+        # An iterator that was only created to answer an earlier state_dict() call must not be
+        # handed out as-is by the next iter(): that would ignore the state loaded here.
+        self._iter_for_state_dict = False
 
     def state_dict(self) -> Dict[str, Any]:
         """Returns a state_dict which can be passed to load_state_dict() in the future to
